@@ -24,6 +24,10 @@ theorem base_axioms_good : ∀ p ∈ Gen.baseAxioms, GoodIn StdBase p.2 := by
   have hsub : ∀ p ∈ Gen.baseAxioms, p ∈ provedAxioms := by decide
   exact fun p hp => provedAxioms_good p (hsub p hp)
 
+/-- non-vacuity: there are axioms, `conjI` and `the_equality` among them -/
+example : Gen.baseAxioms ≠ [] ∧ Gen.baseAxioms.lookup "conjI" = some Gen.ax_conjI ∧
+    (Gen.baseAxioms.lookup "the_equality").isSome = true := by decide
+
 /-- the class of standard valuations is not empty in any model: `GoodIn StdBase` is never vacuous -/
 theorem stdBase_inhabited (M : Model) : ∃ ρ, Admissible M ρ ∧ StdBase M ρ :=
   ⟨stdVal M, stdVal_admissible M, stdVal_stdBase M⟩
